@@ -50,7 +50,10 @@ static inline result_url_aggregator_t *NEW__result_url_aggregator_t(result_url_a
   result_url_aggregator_t *p = (result_url_aggregator_t *)malloc(sizeof(result_url_aggregator_t));
   __CPROVER_assume(p != (void *)0);      /* allocation succeeds (global assumption) */
   *p = v; return p; }
-struct url_search_params { int params_are_not_modelled; };
+/* std::vector<std::pair<std::string,std::string>> params: SIZE-ONLY abstraction (the number of pairs; contents are not modelled).
+ * clear() -> 0, emplace_back(..) -> +1 (arguments are evaluated and dropped), reserve() -> nothing, size()/empty() */
+typedef struct { size_t n; } vec_kv_t;
+struct url_search_params { vec_kv_t params; };
 #define OMITTED 0xffffffffu
 /* ada::get_max_input_length(): a relaxed atomic load of the process-wide limit; modelled as an arbitrary but fixed value */
 extern uint32_t g_max_input_length;
